@@ -6,6 +6,7 @@ PID = "C15"
 MODULES = ["MmtkModel.Props.C15"]
 THEOREMS = ["Mmtk.Sched.open_only_when_quiescent", "Mmtk.Sched.first_stw_opened_by_packet", "Mmtk.Sched.all_closed_at_end",
             "Mmtk.Sched.quiescent_at_end", "Mmtk.Sched.start_removes", "Mmtk.Sched.exactly_once_partial",
+            "Mmtk.Sched.packet_conservation", "Mmtk.Sched.gc_end_accounting", "Mmtk.Sched.step_invK",
             "Mmtk.Sched.generated_wf", "Mmtk.Sched.onLastParked_opens", "Mmtk.Sched.onLastParked_gc_end",
             "Mmtk.Sched.updateLoop_opens", "Mmtk.Sched.step_other"]
 KEYS = S.COMMON_KEYS + ("sched:not-quiescent", "sched:open-while-unparked", "sched:open-before-drained",
@@ -25,9 +26,11 @@ META = {
             "GCs — inside on_last_parked the model predicts the exact sequence of BucketSchedSentinel / BucketOpen / "
             "UpdateBuckets / BucketClose / resume events; packet start/end, poll, steal and batch events must be enabled "
             "model actions; Python oracles re-check opens, closes, duplicate / missing packet executions on the log alone.",
-    "note": "'Exactly once' is proved as: a packet starts only by being removed from its container, and nothing is left at "
-            "the end of the GC (exactly_once_partial); the global multiset equation with unique ids is checked on every "
-            "replayed GC by monitor and oracle, not proved. Exemptions stated in the theorem file: packets pushed by mutators "
+    "note": "'Exactly once' is proved in counting form: added = queued + started and started = running + ended in every "
+            "reachable state (packet_conservation), a packet starts only by being removed from its container, and at the end "
+            "of a GC nothing runs, all deques/designated queues/STW queues are empty and started = ended "
+            "(gc_end_accounting). Uniqueness of packet ids is checked on every replayed GC by monitor and oracle, not proved. "
+            "Exemptions stated in the theorem file: packets pushed by mutators "
             "into closed buckets run in the next GC; Concurrent-bucket packets run after the pause.",
     "technique": "Lean 4 proof: loop invariants + transition lemmas of an n-thread model; event-log conformance monitor",
     "category": "proof",
